@@ -43,7 +43,7 @@ def parse_ub(stderr):
     locs = re.findall(r"(?:-->|at) (\S+?):(\d+):\d+", tail)
     loc = None
     for f, l in locs:
-        if f.startswith("/repo/src/") or f.startswith("src/") and os.path.exists(os.path.join("/repo", f)):
+        if f.startswith("/repo/src/"):   # (relative src/... frames are the harness's own)
             loc = "%s:%s" % (f.replace("/repo/", ""), l)
             break
     if loc is None and locs:
